@@ -278,10 +278,11 @@ def encXToks (l : List TTML.XTok) : String := " ".intercalate (l.map encXTok)
     digits or more in an attribute value (the decoder computes with exact rationals, the library reports a range
     error) and a `br` element carrying a `zIndex` that is not an integer (the decoder ignores the attributes of
     `br`, encoding/xml decodes every child of `p` into an item and fails). Not judged by the read predicate. -/
+def longDigits : List Char → Nat → Bool
+  | [], n => decide (19 ≤ n)
+  | c :: rest, n => if c.isDigit then longDigits rest (n + 1) else decide (19 ≤ n) || longDigits rest 0
+
 def ttmlOutside (toks : List TTML.XTok) : Bool :=
-  let rec longDigits : List Char → Nat → Bool
-    | [], n => decide (19 ≤ n)
-    | c :: rest, n => if c.isDigit then longDigits rest (n + 1) else decide (19 ≤ n) || longDigits rest 0
   toks.any fun t =>
     match t with
     | .start _ name attrs =>
@@ -298,7 +299,7 @@ def handleTTML (op : String) (args impl : List String) : Verdict :=
     match decS' e, fr.toInt?, tr.toInt? with
     | some e, some fr, some tr =>
       let r := TTML.instant e fr tr
-      if (match r with | some d => decide (d > 9223372036854775807) | none => false) then .unmodelled else   -- int64 wrap-around is not modelled
+      if (match r with | some d => decide (d > 9223372036854775807) || decide (d < -9223372036854775808) | none => false) then .unmodelled else   -- int64 wrap-around is not modelled
       let m := match r with | some d => s!"ok {d}" | none => "err"
       compareS m (" ".intercalate impl) fun _ =>
         -- C03 (time expressions): every form denotes the instant it means, within 1 ns
@@ -306,6 +307,7 @@ def handleTTML (op : String) (args impl : List String) : Verdict :=
         | none => true
         | some q =>
           if q.1 ≥ 9223372036854775807 * q.2 then true else     -- beyond time.Duration
+          if longDigits e 0 then true else                        -- a count beyond int64: strconv reports a range error
           match impl with
           | ["ok", t] => (t.toInt?.map fun t => Spec.TTML.within1 t q).getD false
           | _ => false
@@ -314,6 +316,12 @@ def handleTTML (op : String) (args impl : List String) : Verdict :=
     match pViews impl with
     | none => .bad "ttml.read views"
     | some v =>
+      -- int64 wrap-around is not modelled: an instant the model puts outside `time.Duration`
+      let wraps := match TTML.read v.tin with
+        | .ok s => s.items.any fun it => it.startAt > 9223372036854775807 || it.startAt < -9223372036854775808 ||
+                                        it.endAt > 9223372036854775807 || it.endAt < -9223372036854775808
+        | _ => false
+      if wraps then .unmodelled else
       match resStr (TTML.read v.tin) with
       | none => .unmodelled
       | some m =>
